@@ -226,6 +226,25 @@ def gen(ctx):
             cases.append(Forwards(mk_desc(o, 100), mk_desc(i, 101), rng.randint(0, 2), ns,
                                   rng.random() < 0.15, rng.random() < 0.15, rng.random() < 0.85,
                                   rng.random() < 0.85, rng.random() < 0.15))
+    # keywords that collide with another role: a name spelled like the *args parameter (absorbed by
+    # **kwargs, or rejected) listed TOGETHER with names of positional-or-keyword / keyword-only
+    # parameters (the former close *args) and a foreign name, in every order, plain mask and forwards
+    rng2 = ctx.rng('gen-star-keyword')
+    withstars = [ps for ps in U3 if any(p[1] == 'VP' for p in ps)]
+    for _ in range(700 if ctx.quick else 9000):
+        ps = rng2.choice(withstars)
+        if rng2.random() < 0.3:
+            ps = [p for p in ps if p[1] != 'VK'] + [mk_param(id_of_name(rng2.choice(['kwargs', 'vk'])), 'VK')]
+        va = [p[0] for p in ps if p[1] == 'VP']
+        others = [p[0] for p in ps if p[1] in ('PK', 'KO')] + [fz]
+        ns = va + rng2.sample(others, rng2.randint(1, min(2, len(others))))
+        rng2.shuffle(ns)
+        nb = rng2.choice([0, 0, 0, 1, 2])
+        if rng2.random() < 0.75:
+            cases.append(Mask(mk_desc(ps, 100), nb, ns, [rng2.random() < 0.1 for _ in range(4)]))
+        else:
+            cases.append(Forwards(mk_desc(rng2.choice(U2cd), 100), mk_desc(ps, 101), nb, ns,
+                                  False, False, rng2.random() < 0.85, rng2.random() < 0.85, rng2.random() < 0.2))
     return cases
 
 
